@@ -237,6 +237,7 @@ def run(repo='/repo', tier='quick'):
     c16j(db, res)
     c16k(db, res)
     c16l(db, res)
+    c16m(db, res)
     c16i(db, res)
     res.assumptions.append('"no request byte skipped or parsed twice" is decided only as: the suspension/probe paths do not move the cursor; values are not tracked')
     if tier == 'thorough':
@@ -367,6 +368,25 @@ def c16l(db, res):
                 res.check(name in SUSPENDERS, 'C16.l', '%s:returns:HTP_DATA_OTHER' % name, SUSPENDERS.get(name, ''),
                           '%s returns HTP_DATA_OTHER: outside the CONNECT states nothing ever releases a direction that asked for the other one, so every later call reports DATA_OTHER and the bytes it was offered are never parsed' % name, st['loc'])
     res.floor('C16.l', 'stores of the body-decision state and DATA_OTHER returns', n, 3)
+
+
+def c16m(db, res):
+    """Whether the request side waits for the answer depends on the method alone: a CONNECT is a CONNECT in HTTP/1.0 as well, with
+    or without a Host header or a body."""
+    res.rule('C16.m', 'a CONNECT suspends the request side whatever else the request says: in htp_connp_REQ_CONNECT_CHECK the suspension (HTP_DATA_OTHER) is guarded by request_method_number == HTP_M_CONNECT and by nothing else')
+    f = db.get('htp_connp_REQ_CONNECT_CHECK')
+    n = 0
+    for b, i, st in f.returns() or []:
+        if lit_name(P.ret_value(st)) != 'HTP_DATA_OTHER':
+            continue
+        n += 1
+        facts = [a for a, e in P.facts_at(f, b)]
+        meth = [a for a in facts if a[0].endswith('request_method_number') and a[1] == '==' and 'CONNECT' in str(a[2])]
+        other = [a for a in facts if a not in meth]
+        res.check(bool(meth) and not other, 'C16.m', 'htp_connp_REQ_CONNECT_CHECK:suspends-on-method-only', 'guarded by the method alone',
+                  'htp_connp_REQ_CONNECT_CHECK makes the suspension depend on %s as well: a CONNECT that does not meet the extra condition is not suspended, and after a 2xx answer its tunnel bytes are parsed as requests' % other, st['loc'])
+    # and the non-suspending exit is the complement: no CONNECT falls through to the body decision
+    res.floor('C16.m', 'suspending returns of the CONNECT check', n, 1)
 
 
 def c16h(db, res):
